@@ -24,6 +24,10 @@ ASSUMPTIONS = ["the recursive-descent parser (parse_*.go, legalize_*.go) and its
 
 
 def run(ctx):
+    import time as _t
+    _t0 = _t.time()
+    phases = {}
+    ctx.extra["phase_s"] = phases
     rng = ctx.rng
     ff, fe, fv = X.TREE["flush"], X.TREE["esc"], X.TREE["verdict"]
 
@@ -67,6 +71,7 @@ def run(ctx):
     outs = ctx.impl("xlexer", [{"mode": "parse", "s": c.hex(), "path": p, "prior": (1 if k % 97 == 0 else 0)}
                                for k, (c, p) in enumerate(cases)])
     nviol = {}
+    verdict_seen = set()
     for (c, p), o in zip(cases, outs):
         fails = X.parse_oracle(c, o)
         if "diags" in o:
@@ -82,16 +87,19 @@ def run(ctx):
                                           "text": repr(c[:200]), "ok": o.get("ok"),
                                           "diags": [(d["level"], d["msg"][:60], [sp[:2] for sp in d["spans"]]) for d in o.get("diags", [])][:12]})
         if "diags" in o and "ok" in o and "escaped_panic" not in o:
-            terms.append("CVerdict %s [%s]%%Z %s" % (coq_bool(fv), ";".join(str(d["level"]) for d in o["diags"]), coq_bool(o["ok"])))
-            meta.append(("verdict", c, o))
+            vk = (tuple(d["level"] for d in o["diags"]), o["ok"])
+            if vk not in verdict_seen:      # the verdict is a function of the level list: one term per distinct observation
+                verdict_seen.add(vk)
+                terms.append("CVerdict %s [%s]%%Z %s" % (coq_bool(fv), ";".join(str(l) for l in vk[0]), coq_bool(o["ok"])))
+                meta.append(("verdict", c, o))
     ctx.extra["oracle_failures_by_key"] = nviol
     ctx.sample({"mode": "parse", "s": b"".hex(), "text": "''"})
     ctx.sample({"mode": "parse", "s": b'syntax = "proto3"; package a; message M { string s = 1 [default = "\\'.hex()})
 
     # --- the lexer half against the model (the theorems xlex_total / xlex_spans_in_file are about this model)
-    lexcases = list(X.CORPUS) + X.random_rich(rng, ctx.budget(500, 8000))
+    lexcases = list(X.CORPUS) + X.random_rich(rng, ctx.budget(300, 8000))
     for (c, p) in cases:
-        if 0 < len(c) <= 160 and len(lexcases) < ctx.budget(1500, 20000) and rng.chance(1, 3):
+        if 0 < len(c) <= 160 and len(lexcases) < ctx.budget(800, 20000) and rng.chance(1, 3):
             lexcases.append(c)
     lexcases = list(dict.fromkeys(lexcases))
     louts = ctx.impl("xlexer", [{"mode": "lex", "s": c.hex()} for c in lexcases])
@@ -108,7 +116,11 @@ def run(ctx):
         terms.append(t)
         meta.append(("lex", c, o))
 
-    mism, err = coq_eval_mismatches("cases_C28", X.CORR_HEADER, terms, "xlex_chk", shard_size=ctx.budget(700, 2500))
+    phases["cases+impl+oracle"] = round(_t.time() - _t0, 1)
+    _t1 = _t.time()
+    mism, err = coq_eval_mismatches("cases_C28", X.CORR_HEADER, terms, "xlex_chk", shard_size=ctx.budget(120, 1500))
+    phases["coq_eval"] = round(_t.time() - _t1, 1)
+    phases["before_run"] = round(_t0 - ctx.t0, 1)
     if err:
         raise RuntimeError(err)
     for k in mism:
@@ -124,4 +136,5 @@ def run(ctx):
                            {"tokens": o.get("tokens"),
                             "diags": [(d["level"], d["class"], [sp[:2] for sp in d["spans"]]) for d in o["diags"]],
                             "model_variant": {"fix_flush": ff, "fix_esc": fe}})
+    ctx.extra["distinct_verdict_observations"] = len(verdict_seen)
     ctx.extra["model_variant"] = {"fix_flush": ff, "fix_esc": fe, "fix_verdict": fv}
